@@ -568,7 +568,15 @@ class IrGenerator:
 
             ctx = ir.StatemachineContext.enter(inp._name)
 
-            statemachine_end = self.apply(inp._body, open_blocks=[ctx.first_block()])
+            try:
+                statemachine_end = self.apply(
+                    inp._body, open_blocks=[ctx.first_block()]
+                )
+            except BaseException:
+                # the design is rejected: do not leave the context
+                # active for the following compilations
+                ir.StatemachineContext._singleton = None
+                raise
 
             parent_block.append(ir.StatemachineContext.finish(statemachine_end))
 
